@@ -41,7 +41,7 @@ func (c c17Cfg) String() string {
 
 func c17Gen(name string) func(string) string {
 	switch name {
-	case "caret":
+	case "caret", "caret-late":
 		return func(s string) string { return s + "^" }
 	case "const":
 		return func(string) string { return "zed" }
@@ -244,12 +244,16 @@ func c17Run(cfg c17Cfg, script []c17Step) *c17Res {
 	}
 	o := RunSeq(vx.Options{MaxSteps: 200000}, func(env *vx.Env) {
 		s, err := StartSession(env, cfg.Nick, func(c *client.Config) {
-			if cfg.Gen != "default" {
+			if cfg.Gen != "default" && cfg.Gen != "caret-late" {
 				c.NewNick = gen
 			}
 		}, func(c *client.Conn) {
 			if cfg.Track {
 				c.EnableStateTracking()
+			}
+			if cfg.Gen == "caret-late" {
+				// the configured generator is whatever Config().NewNick holds when the collision arrives
+				c.Config().NewNick = gen
 			}
 		})
 		if err != nil {
@@ -593,6 +597,7 @@ func c17Configs() []c17Cfg {
 				}
 			}
 		}
+		cfgs = append(cfgs, c17Cfg{Track: track, Gen: "caret-late", Nick: "bob"})
 	}
 	return cfgs
 }
@@ -696,7 +701,7 @@ func c17VariantsJob() Job {
 func init() {
 	Register(&Prop{
 		ID:   "C17",
-		Rule: "the MODEL (server's view: phase, current and previous nick, outstanding request, collisions so far) is walked breadth-first over the alphabet {433 for the requested nick / for another nick, 001 to the requested / another nick, client Nick(x) confirmed / refused / refused and the follow-up confirmed, forced NICK, other users' NICK between names equal to, prefixes of and one character from the client's current and previous nick}, keeping the shortest script P (shorter than the tier's length: quick 4, thorough 6; at most 3 collisions before the welcome) per distinct model state; for every such state the real client is run, from a fresh connect each time, on P+c for every view-changing symbol c, on P followed by all view-preserving symbols in a row (judged after each), and on P + that row + c; x tracking on/off x generator {default, s+\"^\", constant \"zed\"} x nick {bob, w9} x (tracked only) Me() read at every step / only after the last step. One case = one judged (configuration, script); failures are minimised by dropping view-preserving steps. Family default-generator: DefaultNewNick on all 256 last bytes x 3 prefixes",
+		Rule: "the MODEL (server's view: phase, current and previous nick, outstanding request, collisions so far) is walked breadth-first over the alphabet {433 for the requested nick / for another nick, 001 to the requested / another nick, client Nick(x) confirmed / refused / refused and the follow-up confirmed, forced NICK, other users' NICK between names equal to, prefixes of and one character from the client's current and previous nick}, keeping the shortest script P (shorter than the tier's length: quick 4, thorough 6; at most 3 collisions before the welcome) per distinct model state; for every such state the real client is run, from a fresh connect each time, on P+c for every view-changing symbol c, on P followed by all view-preserving symbols in a row (judged after each), and on P + that row + c; x tracking on/off x generator {default, s+\"^\", constant \"zed\"; s+\"^\" installed through Config() after Client() returned} x nick {bob, w9} x (tracked only) Me() read at every step / only after the last step. One case = one judged (configuration, script); failures are minimised by dropping view-preserving steps. Family default-generator: DefaultNewNick on all 256 last bytes x 3 prefixes",
 		Assumptions: []string{
 			"a 433 naming a nick the client does not hold leaves the server's view unchanged; the NICK the client sends in answer stays outstanding (the script may later address the welcome to it)",
 			"'character' in 'differs only in its last character' is a byte (IRC nicks are byte strings); DefaultNewNick(\"\") is only required not to panic",
